@@ -12,6 +12,7 @@ Operators (kind):
   zdrop i | zempty i | ztrunc i pos | zhost i body        ZIP member dropped / emptied / cut at a '<' or '>' / replaced by hostile XML
   zforge i field value                                    forged ZIP header field (verif.gen.zipforge); i = -1: archive-level field
   cfb opt arg value                                       forged CFB field (verif.gen.cfb opts); pset: property-set stream dwords
+  fatent fat|minifat k mode                               k-th used FAT / mini-FAT entry := 0 | 1 | itself | k+2 | ENDOFCHAIN | FREESECT | ffff
   reclen stream k mode                                    length field of BIFF / PPT record k := 0 | len-1 | len+1 | ffff | ffffffff
   brace rm|dup k                                          RTF: k-th brace removed / duplicated
   imgseg k mode                                           length field of segment / chunk k of the embedded JPEG / PNG
@@ -242,6 +243,9 @@ def materialize(case) -> bytes:
             st = st[:p + 4] + struct.pack("<I", v & 0xFFFFFFFF) + st[p + 8:]
         streams[op[1]] = st
         return S.cfb.cfb(streams, o)
+    if kind == "fatent":
+        off = _cfb_tables(data)[op[1]][op[2]]
+        return data[:off] + struct.pack("<I", _fatent_value(op[3], op[2])) + data[off + 4:]
     if kind == "brace":
         pos = _rtf_braces(data)[op[2]]
         return data[:pos] + data[pos + 1:] if op[1] == "rm" else data[:pos] + data[pos:pos + 1] + data[pos:]
@@ -288,7 +292,42 @@ def _rtf_braces(data: bytes) -> list:
 
 
 def _even_offsets(n: int, k: int) -> list:
-    return sorted({(n * (2 * i + 1)) // (2 * k) for i in range(k)}) if n > 0 else []
+    """k evenly spaced offsets 0 <= o < n (the offsets for k are a subset of those for any multiple of k)"""
+    return sorted({(n * i) // k for i in range(k)}) if n > 0 else []
+
+
+def _cfb_tables(data: bytes):
+    """{"fat": [file offset of entry i], "minifat": [file offset of entry j]} of a compound file (only entries in use)"""
+    ss = 1 << struct.unpack_from("<H", data, 0x1E)[0]
+    per = ss // 4
+    fat_sectors = [x for x in struct.unpack_from("<109I", data, 0x4C) if x < 0xFFFFFFFA]
+
+    def fat_off(i):
+        return (fat_sectors[i // per] + 1) * ss + (i % per) * 4
+
+    nsect = (len(data) - ss) // ss
+    fat = {}
+    for i in range(min(nsect, len(fat_sectors) * per)):
+        fat[i] = struct.unpack_from("<I", data, fat_off(i))[0]
+    out = {"fat": [fat_off(i) for i in sorted(fat) if fat[i] != 0xFFFFFFFF], "minifat": []}
+    sct = struct.unpack_from("<I", data, 0x3C)[0]
+    seen = set()
+    while sct < 0xFFFFFFFA and sct not in seen and sct in fat:
+        seen.add(sct)
+        base = (sct + 1) * ss
+        for j in range(per):
+            if struct.unpack_from("<I", data, base + 4 * j)[0] != 0xFFFFFFFF:
+                out["minifat"].append(base + 4 * j)
+        sct = fat[sct]
+    return out
+
+
+FATENT_VALUES = ["0", "1", "self", "skip", "end", "free", "ffff"]
+FATENT_QUICK = ["0", "self", "end", "ffff"]
+
+
+def _fatent_value(mode: str, index: int) -> int:
+    return {"0": 0, "1": 1, "self": index, "skip": index + 2, "end": 0xFFFFFFFE, "free": 0xFFFFFFFF, "ffff": 0xFFFF}[mode]
 
 
 # ------------------------------------------------------------------------------------------------ enumeration
@@ -361,6 +400,11 @@ def _aware_ops(name: str, tier: str) -> list:
             else:
                 for k, (_, _, ln, _) in enumerate(S.ppt_records(streams[st])):
                     ops += [["reclen", st, k, m] for m in ("0", "len-1", "len+1", "ffff", "ffffffff") if not (m in ("0", "len-1") and ln == 0)]
+    if family(s["data"]) == "ole":
+        tabs = _cfb_tables(s["data"])
+        for which in ("fat", "minifat"):
+            for k in range(len(tabs[which])):
+                ops += [["fatent", which, k, m] for m in (FATENT_QUICK if quick else FATENT_VALUES)]
     if name == "rtf":
         for k in range(len(_rtf_braces(s["data"]))):
             ops += [["brace", "rm", k], ["brace", "dup", k]]
@@ -438,7 +482,10 @@ def group_cases(tier: str, group: str) -> list:
                 if seam == "zipmember" and s["to"] == "archive":
                     continue            # nested archives are skipped by the library by design
                 n = len(s["data"])
-                ops = [["id"]] + _byte_ops(n, range(0, n, bq if quick else bt)) + _aware_ops(name, tier)[::aq if quick else at]
+                qset = {json.dumps(op) for op in _aware_ops(name, "quick")} if quick else None
+                aware = [op for k, op in enumerate(_aware_ops(name, "thorough")) if k % (aq if quick else at) == 0
+                         and (qset is None or json.dumps(op) in qset)]          # quick picks a subset of what thorough picks
+                ops = [["id"]] + _byte_ops(n, range(0, n, bq if quick else bt)) + aware
                 out += [{"src": f"G:{name}", "to": s["to"], "seam": seam, "via": VIA[seam], "op": op} for op in ops]
     elif group == "seams:F":
         for seam in SEAMS[1:]:
@@ -515,7 +562,7 @@ class _Budget:
     looping in (deepest frame common to all samples), and every 4 s a progress note tells the master that the worker can still be
     interrupted.  If the loop function has already been confirmed - for the same extractor, by a case that ran the full budget -
     further cases looping there are cut after CUT_CPU seconds and attributed to that confirmed hang."""
-    PROBE, TICK, CUT_CPU, WALL_IDLE = 2.0, 0.5, 4.0, 60.0
+    PROBE, TICK, CUT_CPU, CUT_SAMPLES, WALL_IDLE = 1.0, 0.25, 1.0, 4, 60.0
 
     def __init__(self, limit: float, to: str, early: bool):
         self.limit, self.to, self.early = limit, to, early
@@ -546,7 +593,7 @@ class _Budget:
             raise P.CaseTimeout()
         cpu = time.process_time() - self.c0
         wall = time.monotonic() - self.t0
-        if len(self.samples) % 8 == 0:
+        if len(self.samples) % 16 == 0:
             P.note(self.mark)
         if cpu >= self.limit:
             self.reason = f"{cpu:.0f} s of CPU time"
@@ -556,7 +603,7 @@ class _Budget:
             self.reason = f"{wall:.0f} s of wall time, blocked ({cpu:.1f} s CPU)"
             self.breached = True
             raise P.CaseTimeout()
-        if self.early and cpu >= self.CUT_CPU and len(self.samples) >= 3:
+        if self.early and cpu >= self.CUT_CPU and len(self.samples) >= self.CUT_SAMPLES:
             site = self.site()
             self.reason = f"{cpu:.1f} s of CPU time"
             if _confirmed(self.to, site):
@@ -745,7 +792,7 @@ def evaluate(case, early: bool = False):
         ext, wrapped = build_input(case, data)
     except NotImplementedError:
         return "inexpressible", [], 0.0
-    b = _Budget(SOFT_BUDGET, case["to"], early)
+    b = _Budget(SOFT_BUDGET, case["to"], early and case["src"].startswith("G:"))    # fixtures may legitimately need seconds: no attribution
     oc, fails = None, []
     try:
         with b:
@@ -788,13 +835,13 @@ def _eval_one(case):
 
 
 _RX: dict = {}
+_HANG_CACHE: dict = {}      # json(case) -> reexec result, for cases whose hang verdict has been confirmed in a fresh worker
 
 
 def _rx_pool():
     if _RX.get("pid") != os.getpid():
         _RX["pool"] = P.Pool(1)
         _RX["pid"] = os.getpid()
-        _RX["hangs"] = {}
         atexit.register(_RX["pool"].close)
     return _RX["pool"]
 
@@ -803,26 +850,55 @@ def reexec(fmt, case):
     """One case on the real code, in a sandboxed worker (rlimit, hard kill) so that a hanging or crashing case cannot take the
     triage down.  A hang verdict is remembered per case (each confirmation costs the full budget)."""
     case = {k: v for k, v in case.items() if k != "site"}
+    key = json.dumps(case, sort_keys=True)
+    if key in _HANG_CACHE:
+        return _HANG_CACHE[key]
     try:
         pool = _rx_pool()
     except Exception:  # daemonic caller: run inline
         return [(c, m) for c, m, _ in _eval_one(case)["fails"]]
-    key = json.dumps(case, sort_keys=True)
-    if key in _RX["hangs"]:
-        return _RX["hangs"][key]
-    st, res, _ = pool.map("verif.props.C01", "_eval_one", [case], hard_timeout=HARD_TIMEOUT)[0]
+    out = _rx_result(pool.map("verif.props.C01", "_eval_one", [case], hard_timeout=HARD_TIMEOUT)[0])
+    if any(c == "hang" for c, _ in out):
+        _HANG_CACHE[key] = out
+    return out
+
+
+def _rx_result(r):
+    st, res, _ = r
     if st == "done":
-        out = [(c, m) for c, m, _ in res["fails"]]
-        if any(c == "hang" for c, _ in out):
-            _RX["hangs"][key] = out
-        return out
+        return [(c, m) for c, m, _ in res["fails"]]
     if st == "killed" and res == "hard timeout":
-        out = [("hang", f"worker had to be killed after {HARD_TIMEOUT:.0f} s: the call neither returned nor could be interrupted")]
-        _RX["hangs"][key] = out
-        return out
+        return [("hang", f"worker had to be killed after {HARD_TIMEOUT:.0f} s: the call neither returned nor could be interrupted")]
     if st == "killed":
         return [("crash", "the worker process died while running this case")]
     raise RuntimeError(f"harness error while re-executing: {res}")
+
+
+def _confirm_representatives(pool, fails):
+    """The triage re-executes the simplest failing case of every shape twice, one after the other; for hangs that is 2 x 20 s
+    per shape.  Do exactly these re-executions here, all in parallel on the sweep's workers (full budget, no attribution), and
+    remember a verdict only if both runs agree on it."""
+    from verif.mc import findings as F
+    reps = {}
+    for clause, fmt, case, msg in fails:
+        if clause != "hang":
+            continue
+        k = (fmt, case.get("site"))
+        sk = (F.size(case), fmt, clause, json.dumps(F.abstract(case), sort_keys=True))
+        if k not in reps or sk < reps[k][0]:
+            reps[k] = (sk, case)
+    cases = [{k: v for k, v in c.items() if k != "site"} for _, c in reps.values()]
+    if not cases:
+        return 0
+    res = pool.map("verif.props.C01", "_eval_one", cases + cases, hard_timeout=HARD_TIMEOUT)
+    for i, c in enumerate(cases):
+        try:
+            a, b = _rx_result(res[i]), _rx_result(res[i + len(cases)])
+        except RuntimeError:
+            continue
+        if any(x == "hang" for x, _ in a) and any(x == "hang" for x, _ in b):
+            _HANG_CACHE[json.dumps(c, sort_keys=True)] = a
+    return len(cases)
 
 
 # ------------------------------------------------------------------------------------------------ triage hooks
@@ -1015,6 +1091,7 @@ def run(ctx):
                     if rest:
                         nxt.append(dict(t, start=rest[0], limit=len(rest), round=rnd))
                 todo = nxt
+            confirmed_reps = _confirm_representatives(pool, fails)
     finally:
         shutil.rmtree(base, ignore_errors=True)
     total = sum(per_group.values())
@@ -1031,7 +1108,7 @@ def run(ctx):
     q = ctx.quick
     cov = {"evaluations": ev, "enumerated": total, "distinct_nontrivial": len(outcomes), "outcome_classes": by_class,
            "cases_per_operator_family": grp_sizes, "seeds_G": len(S.build_g()), "seeds_F": len(S.fixtures()), "extractors": len(EXTRACTOR_KEYS),
-           "hard_kills": kills, "slowest_cases": [{"seconds": s_, "case": c} for s_, c in slow[:5]],
+           "hard_kills": kills, "hang_shapes_reconfirmed_twice": confirmed_reps, "slowest_cases": [{"seconds": s_, "case": c} for s_, c in slow[:5]],
            "rule": "every single-deviation mutant of every seed: G = %d generated documents (every %sbyte offset x {truncate, 00, FF, ^01, ^80, "
                    "delete}; per ZIP member drop / empty / cut at every %stag boundary / %d hostile XML bodies / forged header fields; CFB "
                    "forged header, FAT, directory and property-set fields; every BIFF / PPT record length field; every RTF brace; every "
@@ -1058,7 +1135,8 @@ ASSUMPTIONS = [
     "termination: budget of 20 s CPU time of the worker per call (wall time would make the verdict depend on the load of the machine; a "
     "call that blocks without computing is cut after 60 s wall; a call that cannot be interrupted is killed after 90 s without a "
     "progress note) on inputs <= 2.5 MB whose normal cost is <= 3 s; once a case has run the full budget, further cases found looping "
-    "in the same function (every stack sample, >= 5 s CPU) are attributed to it without running 20 s each; memory blow-ups that end "
+    "in the same function (every stack sample, >= 1 s CPU; normal cost of those inputs: milliseconds) are attributed to it without "
+    "running 20 s each; the simplest case of every hang shape is re-run twice at the full budget; memory blow-ups that end "
     "in an ExtractionError are attributed to C12",
     "seeds are rendered with a fixed token alphabet; VERIF_SEED permutes the work order only (byte offsets must not move with the seed)",
     "e-mail attachment seam: attachments are routed by file name; formats without a registered media type travel as application/pdf",
